@@ -178,3 +178,16 @@ Proof.
   - discriminate.
   - discriminate.
 Qed.
+
+(* all histories, including a MergeTo interrupted by an exception: the abstract run is a relation.
+   wt_merge_exn = basic guarantee of MergeTo: the union of the two contents is unchanged as a multiset, i.e. every element
+   is in exactly one of the two containers afterwards (each keeps distinct keys); nothing else about the split is promised. *)
+Inductive wtrace : wspec -> list wop -> list out -> wspec -> Prop :=
+| wt_nil m : wtrace m [] [] m
+| wt_ok m o x m1 y os xs m' :
+    wspec_step m o = (m1, y) -> out_equiv x y -> wtrace m1 os xs m' -> wtrace m (o :: os) (x :: xs) m'
+| wt_exn m o os xs m' :                       (* the operation threw and left everything unchanged *)
+    wtrace m os xs m' -> wtrace m (o :: os) (RExn :: xs) m'
+| wt_merge_exn ma mb e ma' mb' os xs m' :
+    Permutation (ma' ++ mb') (ma ++ mb) -> NoDup (map fst ma') -> NoDup (map fst mb') ->
+    wtrace (ma', mb', e) os xs m' -> wtrace (ma, mb, e) (WMergeAB :: os) (RExn :: xs) m'.
